@@ -11,6 +11,9 @@ def x_jobs():
         j.append(X("c07_long_stream", {"pre": pre, "t": 4, "left": l, "right": r, "n": n, "mode": "fp", "max_paths": 100000},
                    "position counters far beyond PeriodType::MAX: Upper/Lower/ReversalSignal (%d,%d) and Highest/LowestIndex(%d) fed %d concrete zig-zag inputs, then 4 symbolic inputs (all order patterns incl. ties): outputs equal the definitional pivot rule / age on the explicit history at the last 8 steps" % (l, r, n, pre),
                    cost=120, timeout=1500, encodes=["src/methods/reversal.rs: Upper/Lower/ReversalSignal::{new,next}", "src/methods/highest_lowest_index.rs: HighestIndex/LowestIndex::{new,next}", "src/core/window.rs"]))
+    j.append(X("c07_long_stream", {"pre": 4096, "t": 5, "left": 2, "right": 2, "n": 2, "mode": "fp", "max_paths": 400000, "max_steps": 20000000000},
+               "position counters across step 4096 (2^12): reversal detectors (2,2) and arg-extremum trackers(2) fed 4096 concrete zig-zag inputs (the last one, at position 4095, a local low), then 5 symbolic inputs at positions 4096..4100 (all order patterns incl. ties): outputs equal the definitional pivot rule / age on the explicit history at the last 9 steps",
+               cost=200, timeout=2400, encodes=["src/methods/reversal.rs: Upper/Lower/ReversalSignal::{new,next}", "src/methods/highest_lowest_index.rs: HighestIndex/LowestIndex::{new,next}", "src/core/window.rs"]))
     j.append(X("c07_long_stream", {"pre": 4094, "t": 8, "left": 2, "right": 2, "n": 2, "mode": "fp", "max_paths": 400000, "max_steps": 20000000000},
                "position counters across step 4096: reversal detectors (2,2) and arg-extremum trackers(2) fed 4094 concrete zig-zag inputs, then 8 symbolic inputs (deepening; best effort)", tier="t", core=False, cost=3000, timeout=14000,
                encodes=["src/methods/reversal.rs", "src/methods/highest_lowest_index.rs"]))
